@@ -49,6 +49,12 @@ void ManagedText::UpdateFrom(const EntityTermContext& cntxt) {
   }
 }
 
+void ManagedText::DropResolved() noexcept {
+  if (!TextEnvironment::Instance().skipResolving) { // Note: nothing will resolve the text again
+    cache.clear();
+  }
+}
+
 std::unordered_set<std::string> ManagedText::Referals() const {
   const auto refs = Reference::ExtractAll(rawText);
   std::unordered_set<std::string> result{};
